@@ -445,10 +445,11 @@ def get_extra(sim, simtype: str) -> dict:
             "dt": sim.dt,
         }
     if simtype == "PhaseField":
-        return {
-            "H": np.array(priv(sim, "_PhaseField__old_psiP_e_pg")),
-            "psiP": np.array(priv(sim, "_PhaseField__psiP_e_pg")),
-        }
+        # one array for the whole mesh (older trees) or one per element group (a dict keyed by element type)
+        def grab(x):
+            return {k: np.array(v) for k, v in x.items()} if isinstance(x, dict) else np.array(x)
+
+        return {"H": grab(priv(sim, "_PhaseField__old_psiP_e_pg")), "psiP": grab(priv(sim, "_PhaseField__psiP_e_pg"))}
     return {}
 
 
@@ -460,10 +461,14 @@ def set_extra(sim, simtype: str, ex: dict) -> None:
         set_priv(sim, "_InElastic__z", {k: FeArray.asfearray(v.copy()) for k, v in ex["z"].items()})
         sim.dt = ex["dt"]
     elif simtype == "PhaseField":
-        H = ex["H"].copy()
-        set_priv(sim, "_PhaseField__old_psiP_e_pg", FeArray.asfearray(H) if H.ndim >= 2 else H)
-        P = ex["psiP"].copy()
-        set_priv(sim, "_PhaseField__psiP_e_pg", FeArray.asfearray(P) if P.ndim >= 2 else P)
+        def put(x):
+            if isinstance(x, dict):
+                return {k: FeArray.asfearray(v.copy()) for k, v in x.items()}
+            x = x.copy()
+            return FeArray.asfearray(x) if x.ndim >= 2 else x
+
+        set_priv(sim, "_PhaseField__old_psiP_e_pg", put(ex["H"]))
+        set_priv(sim, "_PhaseField__psiP_e_pg", put(ex["psiP"]))
 
 
 def solve(sim, simtype: str):
